@@ -5,7 +5,7 @@ for w in ${TREES:-$(ls -d /tmp/mut5/C*/[1234] | sed 's#/tmp/mut5/\(C..\)/\(.\)#\
   [ -f $d/patch.diff ] || continue
   [ -d $t ] || git -C /repo worktree add -q --detach $t HEAD
   git -C $t checkout -q -- . && git -C $t apply $d/patch.diff || { echo "FAIL $w"; continue; }
-  COCLS_CACHE_KEEP=250 COCLS_REPO=$t COCLS_NO_EVIDENCE=1 COCLS_NO_SELFTEST=1 python3 /verif/engine/check.py --all --tier quick > /tmp/m5/$w.log 2>&1
+  COCLS_CACHE_KEEP=250 COCLS_REPO=$t COCLS_NO_EVIDENCE=1 COCLS_NO_SELFTEST=1 python3 ${ENG:-/verif}/engine/check.py --all --tier quick > /tmp/m5/$w.log 2>&1
   fired=$(grep -E "^=== C.. rc=1" /tmp/m5/$w.log | cut -c5-7 | tr '\n' ' '); broken=$(grep -E "^=== C.. rc=2" /tmp/m5/$w.log | cut -c5-7 | tr '\n' ' ')
   case " $fired" in *" $c "*) own=yes;; *) own=no;; esac
   echo "$w own=$own fired=$fired broken=$broken"
